@@ -276,6 +276,13 @@ def real_statements(sim, events=None, n_active0=None):
             if r['n_alive'] + r['new_deaths'] != prev + b:
                 bad.append(f"step {r['ti']}: n_alive + new_deaths = {r['n_alive']} + {r['new_deaths']} but there were {prev} active agents before the step and {b} births")
         prev = r['n_alive']
+    snaps = SNAPS[0]
+    if events is not None and n_active0 is not None and snaps and len(snaps) > 1:
+        # C10_composed_conservation on the real run: active at the end + recorded deaths = active at the start + births
+        rows = real_rows(sim)
+        deaths, births = sum(r['new_deaths'] for r in rows), sum(e.get('births', 0) for e in events.values())
+        if len(snaps[-1]['active']) + deaths != n_active0 + births:
+            bad.append(f"whole run: {len(snaps[-1]['active'])} active agents at the end + {deaths} recorded deaths, but {n_active0} active at the start + {births} births")
     return bad
 
 
